@@ -60,6 +60,7 @@ class State:
         self.cm_stack = ()
         self.wrote = frozenset()    # heap keys written on this path since entry
         self.constructing = frozenset()
+        self.callee_view = False
         self.step_base = z3.IntVal(0)
         self.step_snap = None
         self.step_no = 0
@@ -95,6 +96,7 @@ class State:
         s.wrote = self.wrote
         s.clock = self.clock
         s.constructing = self.constructing
+        s.callee_view = self.callee_view
         s.step_base = self.step_base
         s.step_snap = self.step_snap
         s.step_no = self.step_no
